@@ -37,7 +37,7 @@ CLAIMS = {
    note="Trusted: numpy condensed-QP reference; the horizon problem is defined with A_t,B_t,c1_t for t=0..T-1 independent of the system counter (as the statement says). Abstains when the reduced Hessian's condition number exceeds 1e12."),
  "C13": dict(engine="filtersim", design="DESIGN.md §3 C13",
    technique="deterministic simulation: plant + filter + reference Kalman filter in lock-step for up to 50 fed-back steps with seeded noise; PF under a seeded RNG with a 6-sigma band",
-   text="The filter's own (x,P) is fed back for up to 50 steps, producing the correlated priors one-shot tests never see; each step is compared with the exact Kalman predict-then-update from the same prior (EKF, UKF any k>-n), covariances symmetric PSD, PF estimate within 6 sigma of the posterior mean of its documented particle model.",
+   text="The filter's own (x,P) is fed back for up to 50 steps, producing the correlated priors one-shot tests never see; each step is compared with the exact Kalman predict-then-update from the same prior (EKF, UKF any k>-n), covariances symmetric PSD, PF estimate within 6 sigma of the posterior mean of its documented particle model, and, with degenerate weights (outlier measurements), consistent with the best fraction of an independent prior sample; UKF on nonlinear plants for the covariance-validity clause.",
    note="Trusted: numpy Kalman reference; PF band uses an ESS estimate from an independent sample and abstains below 5% ESS."),
  "C08": dict(engine="optsim", design="DESIGN.md §3 C08",
    technique="deterministic simulation: LM/GN step histories with a fault-injecting solver proxy (raise / negate / overshoot / zero / noise) and a recording strategy proxy, against a reference model of the accept/reject loop",
@@ -53,8 +53,8 @@ CLAIMS = {
    note="Trusted: numpy 3x3/4x4 matrix algebra and own scaling-and-squaring expm. Only the 'histories' part of the quantifier is what simulation adds; input-space coverage is what the walk visits."),
  "C06": dict(engine="patchsim", design="DESIGN.md §3 C06", level="fault_enumeration",
    technique="fault injection: exceptions raised by sys.settrace at enumerated/sampled line events inside retain_ltype / func.jacrev regions; identity check of the patched PyTorch internals after every operation; argument non-mutation monitor on the simulated API surface",
-   text="Decides the fault clause (patches undone when the wrapped function raises at any point: user-function raise at the j-th invocation and injector raise at the k-th line event, nested and reused wrappers) and monitors argument non-mutation on the API calls the engines make. The broadcasting / view-transparency clause is a pure input relation and is NOT decided.",
-   note="Trusted: identity (is) snapshot of the three module attributes taken at import. Injection inside torch's own frames runs in forked children because an exception there can poison functorch state, which is torch's business."),
+   text="Decides the fault clause (patches undone when the wrapped function raises at any point: user-function raise at the j-th invocation incl. BaseException subclasses, injector raise at the k-th line event; nested, reused, has_aux and chunked wrappers; first use inside an active context) by identity comparison of every function of the torch modules pypose patches, and monitors argument non-mutation over ~70 public calls with contiguous and strided arguments and special values. The broadcasting / view-transparency clause is a pure input relation and is NOT decided.",
+   note="Trusted: identity (is) snapshot, taken at import, of all functions of torch.autograd.forward_ad, torch._functorch.{eager_transforms,vmap,apis,functional_call}, torch.autograd.functional and torch.func. Every run executes in a forked child; injection inside torch's own frames additionally in a child of that child, because an exception there can poison functorch state, which is torch's business. The non-mutation clause is a monitor over a fixed list of calls, not a sweep over all public functions."),
 }
 
 checks, na = [], []
@@ -92,7 +92,7 @@ m = {
              for n, p in sorted(engines.items())],
  "checks": checks,
  "not_applicable": na,
- "notes": "Technique family: deterministic simulation with fault injection. exit 0 = held, exit 1 = VIOLATION line with replay file, exit 2 = harness error (nothing claimed). VERIF_SEED selects the seed family; VERIF_WORKERS the pool size. Defects of pypose found and repaired are listed in known_findings.json with status 'fixed'.",
+ "notes": "Technique family: deterministic simulation with fault injection. exit 0 = held, exit 1 = VIOLATION line with replay file (a minimised plan, plus a minimised process history when the violation needs earlier runs in the same process), exit 2 = harness error (nothing claimed). VERIF_SEED selects the seed family; VERIF_WORKERS the pool size; VERIF_REPO the tree under test. Twelve defects of pypose found here were repaired by fix: commits and are listed in known_findings.json with status 'fixed'; 108 independently seeded changes are kept under seeded/ (105 caught, 3 recorded as outside the statements).",
 }
 json.dump(m, open(os.path.join(HERE, "MANIFEST.json"), "w"), indent=1)
 print("MANIFEST.json: %d checks, %d not_applicable" % (len(checks), len(na)))
